@@ -751,19 +751,19 @@ func (n *AlertNode) runAlert([]byte) error {
 	)
 	n.statMap.Set(statCardinalityGauge, consumer.CardinalityVar())
 
-	if err := consumer.Consume(); err != nil {
-		return err
-	}
+	// Close the anonymous topic and deregister its handlers when the node ends,
+	// also when it fails: the handlers (and their goroutines) belong to this node.
+	defer func() {
+		// Close the anonymous topic.
+		n.et.tm.AlertService.CloseTopic(n.anonTopic)
 
-	// Close the anonymous topic.
-	n.et.tm.AlertService.CloseTopic(n.anonTopic)
+		// Deregister Handlers on topic
+		for _, h := range n.handlers {
+			n.et.tm.AlertService.DeregisterAnonHandler(n.anonTopic, h)
+		}
+	}()
 
-	// Deregister Handlers on topic
-	for _, h := range n.handlers {
-		n.et.tm.AlertService.DeregisterAnonHandler(n.anonTopic, h)
-	}
-
-	return nil
+	return consumer.Consume()
 }
 
 func (n *AlertNode) NewGroup(group edge.GroupInfo, first edge.PointMeta) (edge.Receiver, error) {
